@@ -309,15 +309,46 @@ def run(report, index, tier):
              'the indent table are %s' % names, where='rules.py:indent')
     for k, h in sorted(dh.items(), key=lambda kv: kv[0].name):
         for text in ('// trailing blanks  \t', '/* a\n * b */',
-                     '//\u00a0x\u00a0', '/**/'):
+                     '//\u00a0x\u00a0', '/**/', '/* a\r\n * b\r */',
+                     '/* a\u2028b\u2029 */', '/*\t\x0b\x0c*/'):
             ev = Evaluator(h.module, None, {}, {})
-            ret, _ = ev.call(h.fdef, [Obj('Dispatcher'),
+            ret, _ = ev.call(h.fdef, [Obj('Dispatcher', newline_str='\n',
+                                          indent_str='  '),
                                       Obj(k.name, value=text)])
             r5.check(ret == text, '%s prints %r' % (k.name, text),
                      '%s handler on %r' % (k.name, text),
                      'the comment %r is printed as %r: the re-parsed tree '
                      'carries a different comment' % (text, ret),
                      where='handlers/core.py:%s' % h.name)
+    # R13.6 ---------------------------------------------------------------
+    r6 = report.rule('R13.6', 'a node that can receive comments prints '
+                     'them first (CommentsAttr leads its definition)',
+                     floor=40)
+    carriers = {}
+    for prod in g.productions:
+        for oc in A.of(prod):
+            if oc.status != 'ok':
+                continue
+            for node in oc.nodes:
+                for idx, _add, _line in node.setpos:
+                    if 1 <= idx <= len(prod.rhs) and g.is_terminal(
+                            prod.rhs[idx - 1]):
+                        carriers.setdefault(node.cls, prod)
+    for cls, prod in sorted(carriers.items()):
+        if cls not in D.defs:
+            continue
+        printing = [t for t in D.defs[cls] if t.kind != 'struct']
+        lead = printing[0] if printing else None
+        ok = lead is not None and D.rc.is_a(
+            lead.cls or '', 'CommentsAttr') if lead is not None and \
+            lead.kind == 'attr' else False
+        r6.check(ok, cls, '%s (positioned on a token of `%s`)' % (
+            cls, prod.text),
+            'comments that precede the anchor token of a %s node are '
+            'attached to it by setpos/set_comments, but the definition of '
+            '%s does not start with CommentsAttr(): they are dropped by '
+            'the printers' % (cls, cls),
+            where='unparsers/es5.py:%s' % cls)
     report.not_decided.append(
         'that the re-parse attaches the same comments to the same nodes '
         '(depends on which token carries them after re-layout)')
